@@ -398,7 +398,8 @@ def job_repr(cfg):
             chunk = max(1, min(16, (1 << 16) // P))
             if os.environ.get("C11_DEBUG"):
                 print("ref", r, "entries", len(entries), "groups", len(groups), "chunk", chunk, flush=True)
-            for (trial, _), es in groups.items():
+            sliced = [(trial, es_all[k:k + 256]) for (trial, _), es_all in groups.items() for k in range(0, len(es_all), 256)]
+            for trial, es in sliced:  # slices bound the memory of the (lists x points) arrays
                 O = eval_overlaps(trial, [e["wd"] for e in es], ja, jb, chunk)
                 K = np.array([ket_of(n, na, nb, e["eff"]) for e in es])
                 Oref = np.conj(K) @ Phi
@@ -445,7 +446,7 @@ def job_repr(cfg):
                     plain = e["source"] == "dict" and e["extra"] == 0 and e["ndets"] is None
                     found.append((e["order"], repr_sig(e["kind"], e["source"], e["extra"], e["ndets"], (not plain) and base_bad(e)),
                                   case, e["detail"]))
-            if entries and r == cfg["refs"][0]:
+            if entries and r == cfg["refs"][0] and cfg.get("sample"):
                 e = entries[-1]
                 res.sample(dict(part="repr", n=n, nelec=[na, nb], reference=[list(ref[0]), list(ref[1])], n_lists=len(entries),
                                 grid_points=P, example=dict(label=e["label"], source=e["source"], max_excitation=e["case"]["max_excitation"],
@@ -655,12 +656,17 @@ def zv_eval(sysd, ref, mode, cap, seed, items=None):
         walkers = [jnp.asarray(Va), jnp.asarray(Vb)]
     dmin = block_dets(ref, Va, Vb)
     if dmin < 1e-2:
-        return None, grid
+        return "restricted_grids_skipped_singular_reference_block", grid
+    Phi = sec.walker_vectors(Va, Vb)
+    Oref = np.conj(ket) @ Phi
+    if np.abs(Oref).max() < 1e-8 * np.linalg.norm(ket) * np.linalg.norm(Phi, axis=0).max():
+        # e.g. a high-spin eigenvector against restricted (spin-pure, low-spin) walkers: <psi|phi> = 0 on the whole
+        # family, the local energy is 0/0 and the property (walkers with non-zero overlap) does not speak
+        return "walker_families_orthogonal_to_the_eigenvector", grid
     tr = gridmc.with_batch(trial, nbatch_for(grid["P"]))
     hd = gridmc.build_ham_data(n, sysd["h0"], sysd["h1"], sysd["chol"], tr, wd)
     E = np.asarray(gridmc.jitted(tr, "calc_energy")(walkers, hd, wd))
     O = np.asarray(gridmc.jitted(tr, "calc_overlap")(walkers, wd))
-    Oref = np.conj(ket) @ sec.walker_vectors(Va, Vb)
     return (E, O, Oref, Va, Vb), grid
 
 
@@ -696,8 +702,8 @@ def _zv_one(res, cfg, spec):
                 continue
             cap = cfg["cap_r"] if mode == "r" else cfg["cap"]
             out, grid = zv_eval(sysd, ref, mode, cap, seed)
-            if out is None:
-                res.guard("restricted_grids_skipped_singular_reference_block")
+            if isinstance(out, str):  # excluded by a pre-check on the inputs (reference values only)
+                res.guard(out)
                 continue
             if grid["capped"]:
                 res.cap(cap_text("zero variance " + spec.get("name", "generic H"), n, na, nb, mode, grid))
@@ -725,12 +731,13 @@ def _zv_one(res, cfg, spec):
                 # control: the same list with one sign flipped is not an eigenvector and must NOT pass
                 first = False
                 outc, _ = zv_eval(sysd, ref, mode, cap, seed, items=perturbed(sysd["items"]))
-                if outc is not None and len(sysd["items"]) > 1:
+                if not isinstance(outc, str) and len(sysd["items"]) > 1:
                     errc, _ = zv_errors(outc[0], outc[2], E0)
                     if errc.max() > 100 * TOL_E:
                         res.guard("control_inexact_trial_deviates")
-                res.sample(dict(part="zero-variance", system=spec, n=n, nelec=[na, nb], E_exact=E0, n_dets=len(sysd["items"]),
-                                reference=[list(ref[0]), list(ref[1])], mode=mode, grid_points=P, max_err=float(err.max())))
+                if cfg.get("sample") and spec is cfg["specs"][0]:
+                    res.sample(dict(part="zero-variance", system=spec, n=n, nelec=[na, nb], E_exact=E0, n_dets=len(sysd["items"]),
+                                    reference=[list(ref[0]), list(ref[1])], mode=mode, grid_points=P, max_err=float(err.max())))
 
 
 def replay_zv(case):
@@ -738,6 +745,8 @@ def replay_zv(case):
     sysd = system(spec)
     ref = (tuple(int(x) for x in case["ref"][0]), tuple(int(x) for x in case["ref"][1]))
     out, _ = zv_eval(sysd, ref, case["mode"], case["cap"], case["seed"])
+    if isinstance(out, str):
+        return (False, dict(excluded_by_input_precheck=out))
     E, O, Oref, _, _ = out
     i = int(case["point"])
     if case.get("what") == "overlap":
@@ -851,8 +860,9 @@ def job_driver(cfg):
                 res.guard("control_inexact_trial_deviates_in_driver")
         except Exception:
             pass
-        res.sample(dict(part="driver", system=spec, cell=cell, E_exact=sysd["E"], reference=[list(ref[0]), list(ref[1])],
-                        block_energies_first_run=energies[0], block_weights_first_run=weights[0]))
+        if cfg.get("sample"):
+            res.sample(dict(part="driver", system=spec, cell=cell, E_exact=sysd["E"], reference=[list(ref[0]), list(ref[1])],
+                            block_energies_first_run=energies[0], block_weights_first_run=weights[0]))
     return res
 
 
@@ -895,7 +905,7 @@ def repr_configs(tier, seed):
                                  (extra == 1 and (n, na, nb) == (4, 2, 2))):
                 continue  # compilation of the deep excitation loops dominates: thorough tier only
             base = dict(n=n, na=na, nb=nb, seed=seed, tier=tier, sources=list(SOURCES), extras=[extra], kinds=kinds,
-                        public=(extra == 0))
+                        public=(extra == 0), sample=(extra == 0 and (n, na, nb) in ((3, 2, 1), (4, 2, 2))))
             if n == 3:
                 out.append(dict(base, refs=list(range(nd)), cap=40000 if thorough else 6000, cap_r=7000 if thorough else 4000))
             elif thorough:
@@ -935,7 +945,7 @@ def zv_configs(tier, seed):
     out = []
     for key, specs in groups.items():
         big = key[4] == "lih"
-        out.append(dict(specs=specs, seed=seed, tier=tier, modes=["u", "r"], max_refs=6 if (thorough and not big) else 4, max_refs_ground=6 if big else None,
+        out.append(dict(specs=specs, seed=seed, tier=tier, modes=["u", "r"], sample=key[4] == "h4" or key[1:4] == (3, 2, 1), max_refs=6 if (thorough and not big) else 4, max_refs_ground=6 if big else None,
                         cap=40000 if thorough else 6000, cap_r=7000 if thorough else 4000))
     return out
 
@@ -969,8 +979,8 @@ def driver_configs(tier, seed):
                             cells.append((sp, cell(wt, nbt, shape, neql, S, rank=rank)))
             cells.append((sp, cell("unrestricted", 4, (2, 2, 1, 4), 1, S, dt=0.05, nw=8)))
             cells.append((sp, cell("restricted", 1, (5, 1, 3, 2), 0, S, dt=0.002, nw=3)))
-    for sp, c in cells:
-        out.append(dict(spec=sp, cell=c, seed=seed, tier=tier))
+    for k, (sp, c) in enumerate(cells):
+        out.append(dict(spec=sp, cell=c, seed=seed, tier=tier, sample=k in (0, len(cells) - 2)))
     return out
 
 
